@@ -40,7 +40,10 @@ def annotate(world_before, world_after):
                 jj = sim["jobs"][k]
                 if jj["user"] == "me" and jj["name"] == d:
                     cand = jj
-            if cand is not None and cand["state"] in simsched.ACTIVE:
+            # judged as gwf saw it when the run began: a prerequisite that ends while gwf is still submitting was pending/running
+            # for gwf, and its dependents must still wait for it (and never start if it failed)
+            seen_state = world_before.sim["jobs"][cand["id"]]["state"] if cand is not None and cand["id"] in world_before.sim["jobs"] else (cand["state"] if cand is not None else None)
+            if cand is not None and (seen_state in simsched.ACTIVE or cand["id"] not in world_before.sim["jobs"]):
                 must.append(cand["id"])
         j["must_wait"] = must
 
@@ -121,8 +124,58 @@ def expand(acc, batch, last=False, meta=None):
             acc.out.append((e2.world_key(w2), w2, trace + [list(a)]))
 
 
-QUICK = [("shortcut", "slurm", 6), ("shortcut", "lsf", 5), ("diamond", "slurm", 7), ("fork", "sge", 7), ("diamond", "lsf", 6), ("chain", "slurm", 7), ("diamond", "sge", 6)]
-THOROUGH = [(wf, be, 9 if wf != "diamond" else 8) for wf in ("fork", "chain", "diamond", "shortcut") for be in ("slurm", "sge", "lsf")]
+def midrun_batch(acc, batch):
+    """The scheduler moves while gwf is submitting: before the k-th scheduler command of a `gwf run`, one environment step (a tracked
+    job starts, finishes, fails or is cancelled). The jobs the run creates must still wait for what was pending/running when it began."""
+    from mc import world as W
+
+    for wfname, backend, pre in batch:
+        meta = dict(wf=wfname, backend=backend, midrun=True)
+        w = CW.init_world(wfname, backend)
+        for a in pre:
+            a = tuple(a) if a[0] != "gwf" else ("gwf", a[1])
+            w2, res = CW.apply_action(w, a)
+            if res is not None:
+                annotate(w, w2)
+            w = w2.normalize()
+        with W.Session(w) as s:
+            s.gwf(["run"])
+            calls = [(e["idx"], e["exe"]) for e in s.sim.s["journal"] if e["op"] == "call"]
+        for idx, exe in calls:
+            for ea in CW.enabled_env(w, kinds=("start", "finish_ok", "finish_fail", "cancel")):
+                trace = [list(a) for a in pre] + [["gwf-run-with", list(ea), "before-call", idx, exe]]
+                with W.Session(w) as s:
+                    def hook(phase, i, e, argv, idx=idx, ea=ea, s=s):
+                        if phase == "before" and i == idx:
+                            j = CW.tracked_job(w, ea[2])
+                            simsched.Sim(s.sim.s).step(ea[1], j["id"])
+
+                    s.sim_hook = hook
+                    r = s.gwf(["run"])
+                    w2 = s.snapshot()
+                acc.extra["invocations"] += 1
+                acc.case(key=json.dumps([meta, trace]), outcome=f"midrun {ea[1]} before {exe}", sample=dict(meta=meta, trace=trace), nontrivial=True)
+                if r.exit_code != 0 or r.crashed():
+                    acc.violation(sig=dict(what="run failed", backend=backend, midrun=True), case=dict(meta=meta, trace=trace, pre=[list(a) for a in pre], idx=idx, ea=list(ea)), observed=r.as_dict(),
+                                  msg=f"[{meta}] {trace}: gwf run failed: {r.exc or r.err_summary()}")
+                    continue
+                annotate(w, w2)
+                a2 = type(acc)()
+                invariants(a2, w2.normalize(), trace, meta)
+                for v in a2.violations:
+                    v["case"] = dict(meta=meta, trace=trace, pre=[list(a) for a in pre], idx=idx, ea=list(ea))
+                    v["sig"]["midrun"] = True
+                    acc.violations.append(v)
+
+
+MIDRUN_PRE = [
+    [("gwf", ["run", "A"])],
+    [("gwf", ["run", "A"]), ("env", "start", "A")],
+    [("gwf", ["run", "B"]), ("env", "start", "A")],
+]
+
+QUICK = [("topdown", "slurm", 6), ("topdown", "sge", 5), ("shortcut", "slurm", 6), ("shortcut", "lsf", 5), ("diamond", "slurm", 7), ("fork", "sge", 7), ("diamond", "lsf", 6), ("chain", "slurm", 7), ("diamond", "sge", 6)]
+THOROUGH = [(wf, be, 9 if wf != "diamond" else 8) for wf in ("fork", "chain", "diamond", "shortcut", "topdown") for be in ("slurm", "sge", "lsf")]
 
 
 def run(ctx):
@@ -134,6 +187,9 @@ def run(ctx):
         w0 = CW.init_world(wfname, backend)
         e2.bfs(ctx, me, "expand", [w0], depth, chunk=4, meta=meta)
         done.append(dict(meta, depth=depth))
+    mid = [(wf, be, pre) for wf in (("fork", "chain") if ctx.tier == "quick" else ("fork", "chain", "diamond")) for be in ("slurm", "sge", "lsf") for pre in MIDRUN_PRE]
+    ctx.pmap(me, "midrun_batch", mid, chunk=1)
+    done.append(dict(midrun=len(mid)))
     local_done = localchecks.run_local(ctx, me, ID, [("diamond", 4), ("shortcut", 4)] if ctx.tier == "quick" else [("diamond", 6), ("shortcut", 6), ("fork", 6)])
     ctx.notes.setdefault("coverage_extra", {})["local_backend"] = local_done
     ctx.traces_validated = ctx.acc.extra["transitions"]
@@ -149,12 +205,19 @@ def replay(case):
     from mc.runner import Acc
 
     meta = case["meta"]
+    if meta.get("midrun"):
+        acc = Acc()
+        midrun_batch(acc, [(meta["wf"], meta["backend"], [tuple(a) if a[0] != "gwf" else ("gwf", a[1]) for a in case["pre"]])])
+        return [v for v in acc.violations if v["case"].get("idx") == case.get("idx") and v["case"].get("ea") == case.get("ea")]
     w = CW.init_world(meta["wf"], meta["backend"])
     acc = Acc()
     for a in case["trace"]:
         a = tuple(a) if a[0] != "gwf" else ("gwf", a[1])
         w2, res = CW.apply_action(w, a)
         if res is not None:
+            if res.exit_code != 0 or res.crashed():
+                acc.violation(sig=dict(what="run failed", backend=meta["backend"]), case=case, observed=res.as_dict(), msg=f"[{meta}] gwf {a[1]} failed: {res.exc or res.err_summary()}")
+                return acc.violations
             annotate(w, w2)
         w = w2.normalize()
     invariants(acc, w, case["trace"], meta)
